@@ -300,6 +300,8 @@ func runCase(p poolT, hist []string, verbose bool) (bad []string, obs string) {
 	}
 	cancel()
 	cache.VerifStopJanitors.Store(true)
+	time.Sleep(time.Minute)
+	vnet.CloseAll()
 	time.Sleep(5 * time.Minute)
 	return bad, strings.Join(o, " | ")
 }
